@@ -1582,7 +1582,11 @@ func (p *Planner[T]) printOperation() (operationBytes []byte, variablesBytes []b
 
 	// When datasource is nested and definition's query type does not contain operation field
 	// we have to replace a query type with a current root type.
-	p.replaceQueryType(definition)
+	definition, err = p.replaceQueryType(definition)
+	if err != nil {
+		p.stopWithError(errors.WithStack(fmt.Errorf("printOperation planner id: %d: failed to replace the query type of the upstream schema: %w", p.id, err)))
+		return nil, nil
+	}
 
 	// normalize upstream operation
 	kit.normalizer.NormalizeOperation(p.upstreamOperation, definition, kit.report)
@@ -1708,25 +1712,32 @@ However, when rewriting the nested Query onto the schema's Query type,
 it might be the case that no FieldDefinition exists for the rewritten root field.
 In that case, we transform the schema so that normalization and printing of the upstream Query succeeds.
 */
-func (p *Planner[T]) replaceQueryType(definition *ast.Document) {
+func (p *Planner[T]) replaceQueryType(definition *ast.Document) (*ast.Document, error) {
 	if !p.dataSourcePlannerConfig.IsNested || p.config.IsFederationEnabled() {
-		return
+		return definition, nil
 	}
 
 	queryTypeName := definition.Index.QueryTypeName
 	queryNode, exists := definition.Index.FirstNodeByNameBytes(queryTypeName)
 	if !exists || queryNode.Kind != ast.NodeKindObjectTypeDefinition {
-		return
+		return definition, nil
 	}
 
 	// check that query type has rootFieldName within its fields
 	hasField := definition.FieldDefinitionsContainField(definition.ObjectTypeDefinitions[queryNode.Ref].FieldsDefinition.Refs, []byte(p.rootFieldName))
 	if hasField {
-		return
+		return definition, nil
 	}
 
-	definition.RemoveObjectTypeDefinition(definition.Index.QueryTypeName)
-	definition.ReplaceRootOperationTypeDefinition(p.rootTypeName, ast.OperationTypeQuery)
+	// The upstream schema of the configuration is shared by all planners of the data source, also by
+	// those of later operations: the transformation is applied to a copy that this planner owns.
+	ownDefinition, err := p.config.upstreamSchemaCopy()
+	if err != nil {
+		return nil, err
+	}
+	ownDefinition.RemoveObjectTypeDefinition(ownDefinition.Index.QueryTypeName)
+	ownDefinition.ReplaceRootOperationTypeDefinition(p.rootTypeName, ast.OperationTypeQuery)
+	return ownDefinition, nil
 }
 
 // normalizeOperation normalizes operation against definition.
